@@ -307,6 +307,44 @@ type Outcome struct {
 	Covers  []string `json:"covers,omitempty"`
 }
 
+// MustFinish: the code under test must come back (Finished is called) within n
+// interpreter steps under the engine; natively within three seconds. A native
+// run that does not come back is reported as violated with the same message,
+// the cases not yet run are reported as not-run, and the process exits (the
+// stuck goroutine cannot be stopped).
+func MustFinish(n int, msg string) {
+	mu.Lock()
+	st := cur
+	mu.Unlock()
+	finishTimer = time.AfterFunc(3*time.Second, func() {
+		mu.Lock()
+		o := Outcome{Tag: replayCases[replayIdx].Tag, Harness: replayCases[replayIdx].Harness, Result: "violated",
+			Failed: append(append([]string{}, st.failed...), "engine: "+msg), Detail: "did not return within 3s", Covers: st.covers}
+		outs := append(append([]Outcome{}, replayOuts...), o)
+		for _, c := range replayCases[replayIdx+1:] {
+			outs = append(outs, Outcome{Tag: c.Tag, Harness: c.Harness, Result: "not-run"})
+		}
+		b, _ := json.MarshalIndent(outs, "", " ")
+		os.WriteFile(os.Getenv("VERIF_REPLAY_OUT"), b, 0644)
+		os.Exit(0)
+	})
+}
+
+// Finished ends the MustFinish watch.
+func Finished() {
+	if finishTimer != nil {
+		finishTimer.Stop()
+		finishTimer = nil
+	}
+}
+
+var (
+	finishTimer *time.Timer
+	replayCases []ReplayCase
+	replayOuts  []Outcome
+	replayIdx   int
+)
+
 // RunReplay executes the cases of the file named by $VERIF_REPLAY against the
 // harness table and writes outcomes to $VERIF_REPLAY_OUT.
 func RunReplay(table map[string]func()) {
@@ -319,7 +357,12 @@ func RunReplay(table map[string]func()) {
 		panic(err)
 	}
 	var outs []Outcome
-	for _, c := range cases {
+	replayCases = cases
+	for ci, c := range cases {
+		Finished() // a watch left over by a case that panicked
+		mu.Lock()
+		replayIdx, replayOuts = ci, outs
+		mu.Unlock()
 		f := table[c.Harness]
 		o := Outcome{Tag: c.Tag, Harness: c.Harness}
 		if f == nil {
@@ -357,6 +400,7 @@ func RunReplay(table map[string]func()) {
 				}
 			}()
 			f()
+			Finished()
 		}()
 		switch {
 		case o.Result == "engine-only" && len(st.failed) == 0:
